@@ -57,6 +57,8 @@ partial def loop (h : IO.FS.Stream) (w : W) (sh : Sh) (fixed : Bool) : IO Unit :
     | ["first", c] => IO.println "ok"; loop h (classImplementsFirst FUEL w c.toNat! args.head!) (sh.step (.classImplementsFirst c.toNat! args.head!)) fixed
     | ["cprov", _] => IO.println "ok"; loop h w sh fixed          -- what a CLASS OBJECT provides: no effect on implementedBy / instances (judged on the real objects)
     | ["cprov", _, _] => IO.println "ok"; loop h w sh fixed
+    | ["mprov", _] => IO.println "ok"; loop h w sh fixed          -- a declaration for the METACLASS: what class objects provide (judged on the real objects)
+    | ["mprov", _, _] => IO.println "ok"; loop h w sh fixed
     | ["dp", o, _] => IO.println "ok"; loop h (directlyProvides FUEL w o.toNat! args) (sh.step (.directlyProvides o.toNat! args)) fixed      -- spelled `provider(...)(ob)`
     | ["dp", o] => IO.println "ok"; loop h (directlyProvides FUEL w o.toNat! args) (sh.step (.directlyProvides o.toNat! args)) fixed
     | ["also", o] => IO.println "ok"; loop h (alsoProvides FUEL w o.toNat! args) (sh.step (.alsoProvides o.toNat! args)) fixed
